@@ -330,9 +330,18 @@ def Result.sym (P : ParserModel) : Result → Option P.Sym
     has put an entry `e` at its cache path (the name was free before). Then a later call for the
     same module with NO server configured finds `e`, and parsing `e` gives exactly the table the
     download returned, URL included. Uses `info_url_trailer` (for URLs as `Url::to_string` writes
-    them) and `chunk_independent`. -/
+    them) and `chunk_independent`.
+
+    Hypothesis `hnl` (the downloaded body ends in a line feed) cannot be dropped FOR THE CODE AS IT
+    IS: the real parser returns `Ok` for a body whose unterminated last line exceeds the 160 KiB
+    window (over-long-line recovery), `commit_cache_file` appends the note directly behind that
+    line, and a later read discards the note together with the line — the cached lookup then has
+    `url = None`. The engine exhibits this on the implementation (class
+    `cached-url-differs-from-original`, known finding `C16-overlong-unterminated-tail`). For every
+    other body that parses, "ends in a line feed" holds (an unterminated short last line is a
+    parse error). -/
 theorem cached_equals_original (hl : ParserLaws P) (c : Cache) (req : Req) (es : List Ev)
-    (rx : List Bytes) (u : Url) (e : Bytes) (hu : UrlClean u)
+    (rx : List Bytes) (u : Url) (e : Bytes) (hu : UrlClean u) (hnl : EndsNl (bodyOf rx))
     (hfree : c req.path = none)
     (hrun : (runTask (P := P) c req .start es).2 = .done (.downloaded rx u))
     (hentry : (runTask (P := P) c req .start es).1 req.path = some (.file e)) :
@@ -388,7 +397,7 @@ theorem cached_equals_original (hl : ParserLaws P) (c : Cache) (req : Req) (es :
       rw [show c' req.path = some (.file e) from hentry]
     rw [this]
   · simp only [Result.sym, hs, he, Option.map_some]
-    exact hl.info_url_trailer (bodyOf rx) t u hu hparse
+    exact hl.info_url_trailer (bodyOf rx) t u hu hnl hparse
 
 /-! ### the hypotheses are inhabited, and concrete runs -/
 
